@@ -59,7 +59,10 @@ CONSTANTS Ids,              \* the image ids the source will ever offer
           Kind,             \* Kind[i]: "ok" | "nofetch" (fetch_candidate raises NotActionableError) | "nosave" (save raises it)
           Feed,             \* the order in which query_candidates() yields the ids (a sequence without repetition)
           Careful,          \* operator discipline, see above
-          RejectAtRefresh   \* "recorded" | "aborts", see above
+          RejectAtRefresh,  \* "recorded" | "aborts", see above
+          ListingOrder      \* <<>>: os.listdir returns the entries of cache_todo/ and approved/ in any order, anew in every
+                            \* run; a permutation of Ids: always in that order (a file system lists an unchanged
+                            \* directory the same way every time - the adversary of the liveness sentences)
 
 Areas == {"candidates", "cache_todo", "cache_done", "rejects", "processed", "approved", "published"}
 Items == {"data", "index", "flag"}     \* <id>/<every file but index.wtml>, <id>/index.wtml, <id>/skip.flag
@@ -71,6 +74,7 @@ ASSUME /\ Range(Feed) = Ids /\ Len(Feed) = Cardinality(Ids)
        /\ \A i \in Ids : Kind[i] \in {"ok", "nofetch", "nosave"}
        /\ Careful \in BOOLEAN /\ RejectAtRefresh \in {"recorded", "aborts"}
        /\ NoId \notin Ids
+       /\ ListingOrder = <<>> \/ (Range(ListingOrder) = Ids /\ Len(ListingOrder) = Cardinality(Ids))
 
 VARIABLES offered,   \* the ids the source yields today (it only grows: a feed of new images)
           area,      \* area[a] = the ids that have an entry in <workdir>/<a>/
@@ -82,6 +86,7 @@ State == [offered |-> offered, area |-> area, dirs |-> dirs, store |-> store]
 \* a run = the per-image step folded over the images in visiting order
 Fold(Step(_, _), r0, seq) ==
     LET f[k \in 0..Len(seq)] == IF k = 0 THEN r0 ELSE Step(f[k - 1], seq[k]) IN f[Len(seq)]
+Listings(S) == IF ListingOrder = <<>> THEN Perms(S) ELSE {SelectSeq(ListingOrder, LAMBDA i : i \in S)}
 Begin(S) == [area |-> S.area, store |-> S.store, failed |-> FALSE]
 Outcome(r) == IF r.failed THEN "error" ELSE "ok"
 
@@ -174,9 +179,9 @@ Result(S, c) ==
 Allowed(S) ==
          {C("refresh", NoId, <<>>), C("ignore-rejects", NoId, <<>>)}
     \cup {C("fetch", i, <<>>) : i \in {j \in Ids : Careful => j \notin S.area["cache_todo"] \cup S.area["cache_done"]}}
-    \cup {C("process-todos", NoId, o) : o \in Perms(S.area["cache_todo"])}
+    \cup {C("process-todos", NoId, o) : o \in Listings(S.area["cache_todo"])}
     \cup {C("approve", i, <<>>) : i \in {j \in Ids : Careful => j \notin S.area["cache_todo"]}}
-    \cup {C("publish", NoId, o) : o \in Perms(S.area["approved"])}
+    \cup {C("publish", NoId, o) : o \in Listings(S.area["approved"])}
     \cup {C("requeue", i, <<>>) : i \in {j \in S.area["cache_done"] \ S.area["cache_todo"] :
                                           Careful => j \in S.area["processed"] \ (S.area["approved"] \cup S.area["published"])}}
     \cup {C("appear", i, <<>>) : i \in Ids \ S.offered}
@@ -193,9 +198,9 @@ Next == \E c \in Allowed(State) : Do(c)
 
 Refresh == Do(C("refresh", NoId, <<>>))
 Fetch(i) == Do(C("fetch", i, <<>>))
-ProcessTodos == \E o \in Perms(area["cache_todo"]) : Do(C("process-todos", NoId, o))
+ProcessTodos == \E o \in Listings(area["cache_todo"]) : Do(C("process-todos", NoId, o))
 Approve(i) == Do(C("approve", i, <<>>))
-Publish == \E o \in Perms(area["approved"]) : Do(C("publish", NoId, o))
+Publish == \E o \in Listings(area["approved"]) : Do(C("publish", NoId, o))
 IgnoreRejects == Do(C("ignore-rejects", NoId, <<>>))
 
 \* the operator keeps working: every command that stays useful is eventually typed (approve: strong fairness,
@@ -243,8 +248,8 @@ FlowStep == \A i \in Ids :
 Flow == [][FlowStep]_vars
 
 \* re-running refresh / process-todos / publish / ignore-rejects right after a run that succeeded changes nothing
-Relisted(c, S) == IF c.cmd = "process-todos" THEN {C(c.cmd, NoId, o) : o \in Perms(S.area["cache_todo"])}
-                  ELSE IF c.cmd = "publish" THEN {C(c.cmd, NoId, o) : o \in Perms(S.area["approved"])}
+Relisted(c, S) == IF c.cmd = "process-todos" THEN {C(c.cmd, NoId, o) : o \in Listings(S.area["cache_todo"])}
+                  ELSE IF c.cmd = "publish" THEN {C(c.cmd, NoId, o) : o \in Listings(S.area["approved"])}
                   ELSE {c}
 Idempotent == \A c \in Allowed(State) :
     (c.cmd \in {"refresh", "process-todos", "publish", "ignore-rejects"} /\ Result(State, c).out = "ok")
